@@ -197,6 +197,8 @@ def check_helper(c):
     variant = c.get("variant", "logix-bare")
     if variant == "cip-bare":
         return check_helper_cip(c)
+    if variant == "logix-micro800":
+        return check_helper_micro800(c)
     tgt = RefPLC(MINI_PROJECT, {"/t": b"\x00" * 4}, {"identity": idn, "plc_name": c["plc_name"], "rack": rack, "expected_route": b"\x01\x00",
                                                      "wall_clock": c["clock0"]})
     import os
@@ -317,6 +319,51 @@ def check_helper_cip(c):
     return discs
 
 
+def check_helper_micro800(c):
+    """a LogixDriver on a Micro800 (no backplane hop in its route once the identity is known): `route_path=True` means the route the
+    driver's own connection uses, also after open() has dropped the hop"""
+    from pycomm3 import LogixDriver
+    from pycomm3.exceptions import PycommError
+    discs = []
+    idn = dict(c["identity"], product_name="2080-LC50-24QWB", major=12)
+    tgt = RefPLC(MINI_PROJECT, {"/t": b"\x00" * 4}, {"identity": idn, "plc_name": c["plc_name"], "expected_route": b""})
+    harness.install(tgt)
+    try:
+        plc = LogixDriver("10.0.0.9", init_tags=False)
+        plc.open()
+        n0 = len(tgt.log)
+        for mode in ("ucsend", "ucmm"):
+            t = plc.generic_message(service=0x01, class_code=1, instance=1, connected=False, unconnected_send=mode == "ucsend", route_path=True)
+            if not t:
+                discs.append(Disc(f"helper.micro800.{mode}.falsy", f"{t!r}"[:300]))
+        routes = [e["ucsend"]["route"] for e in tgt.log[n0:] if "ucsend" in e]
+        if routes != [b""]:
+            discs.append(Disc("helper.micro800.route", f"route_path=True on a Micro800 sent the Unconnected Send along {[r.hex() for r in routes]}, the driver's connection uses no hop"))
+        direct = [e for e in tgt.log[n0:] if e["transport"] == "ucmm" and e["service"] == 0x01]
+        if direct and direct[-1]["data"] not in (b"", b"\x00\x00"):
+            discs.append(Disc("helper.micro800.ucmm-route", f"direct request carried {direct[-1]['data'].hex()} after its path"))
+        info = plc.get_plc_info()
+        if info.get("product_name") != "2080-LC50-24QWB":
+            discs.append(Disc("helper.micro800.plc_info", f"{info!r}"[:300]))
+        t = plc.generic_message(service=0x01, class_code=1, instance=1, connected=True)
+        if not t:
+            discs.append(Disc("helper.micro800.connected", f"{t!r}"[:300]))
+        for prop, code, detail in tgt.audits:
+            if prop in ("C14", "C09", "C15"):
+                discs.append(Disc(f"audit.{code}", detail + " [Micro800]"))
+        plc.close()
+    except PycommError as e:
+        discs.append(Disc(f"helper.micro800.raises.{type(e).__name__}", f"{e!r} <- {e.__cause__!r}"[:500]))
+    except Exception as e:
+        from ..scenario import where
+        if where(e) == "harness":
+            raise
+        discs.append(Disc(f"helper.micro800.foreign.{type(e).__name__}.{where(e)}", f"{e!r}"[:400]))
+    finally:
+        harness.uninstall()
+    return discs
+
+
 # ------------------------------------------------------------------------------------------------
 def id_arg(maxbits=32):
     ints = st.one_of(st.integers(1, 255), st.integers(256, 65535), st.integers(65536, 2 ** 32 - 1), st.sampled_from([1, 255, 256, 65535, 65536, 2 ** 32 - 1]))
@@ -376,7 +423,7 @@ def helper_cases(draw):
     clock = st.one_of(st.integers(0, tmax), st.sampled_from([0, 1, 999_999, 1_000_000, 1_600_000_000_123_456, tmax]))
     return {"identity": ident(), "module": ident(), "slot": draw(st.one_of(st.integers(1, 16), st.integers(1, 255))), "plc_name": draw(st.text(alphabet="ABCxyz_019 ", max_size=20)),
             "clock0": draw(clock), "clock1": draw(clock), "tz": draw(st.sampled_from(["UTC0", "UTC0", "EST5", "CET-1", "NPT-5:45", "AEST-10AEDT"])),
-            "variant": draw(st.sampled_from(["logix-bare", "logix-bare", "logix-bp", "logix-backplane", "logix-1", "cip-bare", "cip-bare"]))}
+            "variant": draw(st.sampled_from(["logix-bare", "logix-bare", "logix-bp", "logix-backplane", "logix-1", "cip-bare", "cip-bare", "logix-micro800"]))}
 
 
 def classes_of(c):
